@@ -12,6 +12,18 @@ WITNESS_FIXED = [
     ('C10:octal-escape-syntaxwarning', b'msgid "a\\8"\nmsgstr "b\\400c"\n', 'stderr'),
 ]
 
+# the recorded open finding: a continuation cut between the escaped bytes of one character
+WITNESS_OPEN = [
+    ('C10:cut-inside-escaped-character',
+     b'msgid ""\nmsgstr "Content-Type: text/plain; charset=UTF-8\\n"\n\nmsgid "\\xc4"\n"\\x85"\nmsgstr ""\n',
+     b'msgid ""\nmsgstr "Content-Type: text/plain; charset=UTF-8\\n"\n\nmsgid "\\xc4\\x85"\nmsgstr ""\n', '\u0105'),
+]
+
+# the recorded open finding: the charset of the first line matching detect_encoding's pattern wins (here: a comment)
+WITNESS_DETECT = ('C10:charset-from-earlier-line',
+                  '# Content-Type: text/plain; charset=KOI8-R\nmsgid ""\nmsgstr "Content-Type: text/plain; charset=UTF-8\\n"\n\nmsgid "\u017c"\nmsgstr "x"\n'.encode('UTF-8'),
+                  '\u017c')
+
 SIMPLE_CHARSETS = ['UTF-8', 'ISO-8859-1', 'ISO-8859-2', 'ISO-8859-15', 'KOI8-R', 'CP1251', 'KOI8-RU', 'GEORGIAN-PS', 'ASCII', 'UTF-8', 'UTF-8']
 NONCOMPAT = ['UTF-16', 'UTF-7', 'CP037', 'UTF-32']          # declared, but the file is read as ASCII
 
@@ -146,6 +158,39 @@ def check_roundtrip(P, data, cat, charset, text):
     if stderr:
         return dict(base, kind='stderr-noise', observed=stderr[:300], expected='nothing on stderr')
     return None
+
+def shrink(P, rng, cex, cat, charset):
+    """a smaller failing spelling of a part of the same catalog: one entry (plus the header entry), fewer fields"""
+    import copy
+    if cex is None or cex.get('kind') == 'stderr-noise':
+        return cex
+    best = cex
+    entries = cat['entries']
+    head = entries[:1] if entries and entries[0]['msgid'] == '' else []
+    cands = []
+    for e in entries[len(head):] or entries:
+        cands.append({'header_comment': '', 'entries': copy.deepcopy(head) + [copy.deepcopy(e)]})
+    cands.append({'header_comment': cat['header_comment'], 'entries': copy.deepcopy(head)})
+    for small in cands:
+        for variant in range(6):
+            c2 = copy.deepcopy(small)
+            for e in c2['entries'][len(head):]:
+                if variant & 1:
+                    e['flags'], e['occurrences'], e['comment'], e['tcomment'] = [], [], '', ''
+                if variant & 2:
+                    e['previous_msgctxt'] = e['previous_msgid'] = e['previous_msgid_plural'] = None
+                if variant & 4:
+                    e['msgctxt'] = None
+            for _ in range(25):
+                text = G.render(rng, c2, charset if charset not in NONCOMPAT else 'ASCII')
+                try:
+                    data = text.encode(charset if charset not in NONCOMPAT else 'ASCII')
+                except UnicodeError:
+                    continue
+                r = check_roundtrip(P, data, c2, charset, text)
+                if r is not None and len(r['file_hex']) < len(best['file_hex']):
+                    best = dict(r, shrunk_from_bytes=len(cex['file_hex']) // 2)
+    return best
 
 def spelled_strings(rng, n):
     """(charset, text, spelling of it as ONE segment) for the unescape clause alone"""
@@ -290,6 +335,30 @@ def main():
             bad = 'stderr: ' + stderr[:200]
         if bad:
             chk.violation('a repaired C10 defect is back: ' + bad, {'kind': key, 'file_hex': w.hex(), 'observed': bad}, key=key)
+    open_state = {}
+    for key, cut, uncut, want in WITNESS_OPEN:
+        k1, v1, _ = P.real_load(cut)
+        k2, v2, _ = P.real_load(uncut)
+        ok2 = k2 == 'ok' and [e.msgid for e in v2][-1:] == [want]
+        ok1 = k1 == 'ok' and [e.msgid for e in v1][-1:] == [want]
+        open_state[key] = 'still-failing' if (ok2 and not ok1) else ('resolved' if (ok1 and ok2) else 'other')
+        if not ok1:
+            chk.violation('a continuation cut between the escaped bytes of one character is rejected',
+                          {'kind': key, 'file_hex': cut.hex(), 'file_text': cut.decode('ASCII'), 'observed': P.canon_error(v1) if k1 != 'ok' else 'loaded differently',
+                           'expected': 'msgid U+0105, as for the uncut spelling'}, key=key)
+        elif ok1 and ok2:
+            print(f'KNOWN-FINDING-RESOLVED: property=C10 {key}: the real loader now accepts the witness; the model still rejects it')
+    key, w, want = WITNESS_DETECT
+    k1, v1, _ = P.real_load(w)
+    ok1 = k1 == 'ok' and [e.msgid for e in v1][-1:] == [want]
+    open_state[key] = 'resolved' if ok1 else 'still-failing'
+    if not ok1:
+        chk.violation('the charset of a comment line that matches detect_encoding\'s pattern overrides the header\'s',
+                      {'kind': key, 'file_hex': w.hex(), 'file_text': w.decode('UTF-8'),
+                       'observed': repr([e.msgid for e in v1]) if k1 == 'ok' else P.canon_error(v1), 'expected': repr(['', want])}, key=key)
+    else:
+        print(f'KNOWN-FINDING-RESOLVED: property=C10 {key}: the real loader now reads the witness in the charset its header declares')
+    chk.coverage['open_findings'] = open_state
     extra_wf = wf if not chk.broken else wf + wellformed(rng, n_wf * (mult - 1), charsets)
     if T and not chk.broken:
         extra_wf = wf + wellformed(rng, n_wf, charsets)
@@ -302,6 +371,10 @@ def main():
         stats['with_previous'] += sum(1 for e in cat['entries'] if e['previous_msgid'] is not None)
         cex = check_roundtrip(P, data, cat, cs, text)
         if cex:
+            try:
+                cex = shrink(P, rng, cex, cat, cs)
+            except Exception:
+                pass
             break
     if not cex:
         cases = spelled_strings(rng, (60000 if T else 8000) * mult)
@@ -338,8 +411,21 @@ def main():
         explanation=EXPLANATION)
 
 EXPLANATION = (
-    'see DESIGN-notes/po.md. Proved in Lean for the model (all strings, all codec environments): see theorem list in evidence.theorems. '
-    'OUTSTANDING is listed in tools/manifest.d/C10.json.')
+    'Proved in Lean (Props/C10.lean; all strings, all spellings, every codec environment satisfying CodecOk = ASCII-transparent charset that decodes what it encodes): '
+    'unescape_spelling (every per-character spelling: raw, the nine letter escapes, octal 1-3 digits <= \\377, hex 1-2 digits of either case, non-ASCII characters as escaped bytes '
+    'of the charset -> exactly the string; excluded and stated: short octal escape followed by an octal digit, hex escape followed by a hex digit); flags_split + '
+    'flag_strip_set_is_space (comma-separated trimmed items in order, duplicates and empty items kept; the patched setter changes nothing); load_spells_partial (every CatalogSp: '
+    'header comment, per entry any interleaving of # / #. / #: / #, / #| lines with #| "..." continuations and noise lines, msgctxt? msgid (msgstr | msgid_plural msgstr[0..N<=9]) '
+    'behind #~ or not, cuts anywhere between characters, padding -> polib\'s line loop yields exactly header comment and per entry msgctxt, msgid, msgid_plural, msgstr, indexed '
+    'plurals, flags, obsolete, previous_*, occurrences, extracted and translator comments, in order); comments_attributed; codecs_open_keeps_body, phys_lines (Codecs.open); '
+    'load_file_partial (decode + Codecs.open + line loop composed, under three decidable side conditions on the concrete file); translated_iff; regex_pins; witnesses of the repaired '
+    'defects (trailing_ignored_comment_witness for ed9c45c, unescape_octal_fix for 9de4551). REFUTED by kernel-evaluated witnesses and recorded as OPEN findings, replayed on the real '
+    'loader each run: load_spells_refuted (a continuation cut between the escaped bytes of one character is a syntax error), detect_first_match_refuted (the charset of the first line '
+    'matching polib\'s detect_encoding pattern wins, e.g. a comment). OUTSTANDING: load_spells as one statement about file bytes for every CatalogSp (the side conditions of '
+    'load_file_partial - last body line not held back, trailing lines held back, body normalises to the spelling - are not derived from CatalogSp; detect_encoding on a header spelled on '
+    'one line is tied by the po-detect and end-to-end streams only); the atypical comment form #text is model + stream only; linenum is projected away. polib itself is third-party code '
+    'modelled by hand: its tie is the correspondence (transition table regenerated each run). Excluded spellings: msgstr[N] N>=10, octal above \\377, two string tokens on one line, '
+    'translator comments of the first entry (they are the header comment).')
 
 if __name__ == '__main__':
     common.main_wrapper(main)
